@@ -22,6 +22,9 @@ HARNESS = os.path.join(VERIF, "harness")
 CACHE = os.path.join(VERIF, ".cache")
 REPLAYS = os.path.join(VERIF, "replays")
 EVIDENCE = os.path.join(VERIF, "evidence")
+if os.environ.get("VERIF_SCRATCH_EVIDENCE"):
+    # runs against a deliberately changed tree (self-tests, seeded changes) keep their evidence out of /verif/evidence
+    EVIDENCE = os.environ["VERIF_SCRATCH_EVIDENCE"]
 NCPU = os.cpu_count() or 4
 
 GOENV = dict(os.environ, GOFLAGS="-mod=mod", GOPROXY="off", GOSUMDB="off", GOTOOLCHAIN="local")
